@@ -107,7 +107,7 @@ def case_charnock_nan(ctx):
 FUF = z3.Function("Fmap", z3.RealSort(), z3.RealSort())
 
 
-def case_fixed_point(ctx, max_iter, aitken):
+def case_fixed_point(ctx, max_iter, aitken, with_nan=False):
     """fixed_point_iteration with an uninterpreted map: on the converged exit the last step was a function (or bounds
     halving) step that met both tolerances; otherwise the element is NaN"""
     import ocean_science_utilities.tools.solvers as TS
@@ -116,7 +116,8 @@ def case_fixed_point(ctx, max_iter, aitken):
     if ctx.mode != "sym":
         # replay witness: F(x) = x/2 from x0 = 1e-4 meets the absolute but never the relative tolerance
         cfg = TS.Configuration(max_iter=max_iter, aitken_acceleration=aitken, atol=1e-4, rtol=1e-4)
-        r = TS.fixed_point_iteration(lambda x: x / 2, np.array([1e-4]), bounds=(0, np.inf), configuration=cfg)[0]
+        start = np.array([1e-4, np.nan]) if with_nan else np.array([1e-4])
+        r = TS.fixed_point_iteration(lambda x: x / 2, start, bounds=(0, np.inf), configuration=cfg)[0]
         ok = bool(np.isnan(r)) or (r < 1e-4 and r / max(2 * r, 1e-4) < 1e-4)
         ctx.check(ok, "D-FP.tolerance", info=dict(returned=float(r)))
         ctx.check(ok, "D-FP.step")
@@ -128,12 +129,21 @@ def case_fixed_point(ctx, max_iter, aitken):
     def F(x):
         out = np.empty(x.shape, dtype=object)
         for i in range(x.size):
+            if core._is_nan_float(x[i]):
+                out[i] = float("nan")
+                continue
             xi = x[i] if isinstance(x[i], SR) else SR(core._frac(x[i]))
-            calls.append(xi)
+            if i == 0:
+                calls.append(xi)
             out[i] = SR(FUF(core.zt(xi)))
         return out
     cfg = TS.Configuration(max_iter=max_iter, aitken_acceleration=aitken, atol=1e-4, rtol=1e-4)
-    res = TS.fixed_point_iteration(F, g.copy(), bounds=(0, np.inf), configuration=cfg)
+    start = g.copy()
+    if with_nan:     # a missing value next to the finite one must not influence when the finite one is accepted
+        start = np.array([g[0], float("nan")], dtype=object)
+    res = TS.fixed_point_iteration(F, start, bounds=(0, np.inf), configuration=cfg)
+    if with_nan:
+        ctx.check(ctx.isnan(res[1]), "D-FP.nan-in", info="missing first guess gives a missing result")
     r = res[0]
     ctx.reach("D-FP")
     if core._is_nan_float(r):
@@ -334,6 +344,8 @@ def cases(tier):
         add("case_fixed_point", f"fixed_point_it{mi}", max_iter=mi, aitken=True,
             opts=dict(weight=4 ** mi, case_timeout_s=280 if q else 3000))
     add("case_fixed_point", "fixed_point_it3_noaitken", max_iter=3, aitken=False, opts=dict(weight=50))
+    add("case_fixed_point", "fixed_point_it2_with_nan", max_iter=2, aitken=True, with_nan=True, opts=dict(weight=50))
+    add("case_fixed_point", "fixed_point_it3_noaitken_with_nan", max_iter=3, aitken=False, with_nan=True, opts=dict(weight=60))
     for wt in ("u10", "friction_velocity"):
         add("case_stress_function", f"stress_function_{wt}", wtype=wt, opts=dict(weight=30))
     add("case_roughness_point", "roughness_ok", scenario="ok")
